@@ -20,10 +20,16 @@ impl Generator<'_> {
                 let arg = &inline_callback.arg;
                 let body = &inline_callback.body;
 
-                quote! {{
-                    let #arg = lex;
-                    #body
-                }}
+                if inline_callback.leaves_early() {
+                    quote! {
+                        (|#arg: &mut _Lexer<#src_lt, #this>| { #body })(lex)
+                    }
+                } else {
+                    quote! {{
+                        let #arg = lex;
+                        #body
+                    }}
+                }
             }
         });
 
